@@ -65,6 +65,8 @@ class TaintAnalysis:
         driver repeats rounds until nothing grows (`changed` stays False)."""
         self._round_fields: Set[Tuple[str, str]] = set()
         self._round_summ: Set[Tuple] = set()
+        self._ctor_cache = {}
+        self._ctor_busy = set()
         self.changed = False
 
     def field_taint(self, cls: ClassInfo, attr: str) -> Origins:
@@ -93,7 +95,7 @@ class TaintAnalysis:
                             tgts.append((node.target, node.value, None, 0))
                         for t, val, idx, n in tgts:
                             if isinstance(t, ast.Attribute) and isinstance(t.value, ast.Name) and t.value.id == "self" and t.attr == attr:
-                                env = self.function_env(m, cls)
+                                env = self.function_env(m, cls, self._ctor_taint(c) if m.name == "__init__" else None)
                                 o = self.expr(m, val, env, cls, 0)
                                 if idx is not None:
                                     o = self._tuple_elem(m, val, idx, n, env, cls, 0, o)
@@ -105,6 +107,56 @@ class TaintAnalysis:
             self.changed = True
         self._field_cache[key] = out
         self._round_fields.add(key)
+        return out
+
+    def _ctor_sites(self) -> Dict[str, List[Tuple[FuncInfo, ast.Call]]]:
+        if getattr(self, "_ctor_index", None) is None:
+            idx: Dict[str, List[Tuple[FuncInfo, ast.Call]]] = {}
+            for g in self.p.all_functions():
+                for n in ast.walk(g.node):
+                    if isinstance(n, ast.Call) and isinstance(n.func, (ast.Name, ast.Attribute)):
+                        nm = n.func.id if isinstance(n.func, ast.Name) else n.func.attr
+                        if not nm[:1].isupper() and not nm[:2].lstrip("_")[:1].isupper():
+                            continue
+                        try:
+                            r = self.p.resolve_call(g, n)
+                        except Exception:
+                            r = None
+                        if isinstance(r, ClassInfo):
+                            idx.setdefault(r.fq, []).append((g, n))
+            self._ctor_index = idx
+        return self._ctor_index
+
+    def _ctor_taint(self, cls: ClassInfo) -> Dict[str, Origins]:
+        """What the instantiation sites of a small value class hand to its __init__: the union over the sites `Cls(args)` found
+        in the program (a value object built from client data carries it in its fields). Only for classes that are
+        instantiated inside the repository; the request / response classes an application instantiates get their taint from
+        the declared sources."""
+        if not hasattr(self, "_ctor_cache"):
+            self._ctor_cache: Dict[str, Dict[str, Origins]] = {}
+            self._ctor_busy: Set[str] = set()
+        if cls.fq in self._ctor_cache:
+            return self._ctor_cache[cls.fq]
+        if cls.fq in self._ctor_busy:
+            return {}
+        init = self.p.find_method(cls, "__init__")
+        out: Dict[str, Origins] = {}
+        if init is None:
+            return out
+        self._ctor_busy.add(cls.fq)
+        try:
+            for g, call in self._ctor_sites().get(cls.fq, []):
+                if any(isinstance(a, ast.Starred) for a in call.args) or any(k.arg is None for k in call.keywords):
+                    continue
+                env = self.function_env(g, self.p.enclosing_class(g), None, 2)
+                sc = self.p.enclosing_class(g)
+                for nm, a in zip(init.params[1:], call.args):
+                    out[nm] = out.get(nm, EMPTY) | self.expr(g, a, env, sc, 2)
+                for k in call.keywords:
+                    out[k.arg] = out.get(k.arg, EMPTY) | self.expr(g, k.value, env, sc, 2)
+        finally:
+            self._ctor_busy.discard(cls.fq)
+        self._ctor_cache[cls.fq] = out
         return out
 
     # ------------------------------------------------------------- functions
@@ -272,12 +324,65 @@ class TaintAnalysis:
                 recv_taint = self.expr(fn, call.func.value, env, self_cls, depth) if not (isinstance(call.func.value, ast.Name) and call.func.value.id in ("self", "cls")) else EMPTY
             pt[params[0]] = recv_taint
             params = params[1:]
-        for nm, a in zip(params, call.args):
-            pt[nm] = self.expr(fn, a, env, self_cls, depth)
+        args: List[Tuple[Optional[ast.expr], Origins]] = []
+        spread: Origins = EMPTY
+        for a in call.args:
+            if isinstance(a, ast.Starred):
+                el = self._star_elements(fn, a.value)
+                if el is not None:
+                    # *t where t is only ever a tuple display / a NamedTuple(...) of the same length: element-wise
+                    for col in zip(*el):
+                        o: Origins = EMPTY
+                        for x in col:
+                            o = o | self.expr(fn, x, env, self_cls, depth)
+                        args.append((None, o))
+                else:
+                    spread = spread | self.expr(fn, a.value, env, self_cls, depth)  # unknown length: reaches every later parameter
+                    break
+            else:
+                args.append((a, self.expr(fn, a, env, self_cls, depth)))
+        for nm, (_a, o) in zip(params, args):
+            pt[nm] = o
+        if spread:
+            for nm in params[len(args):]:
+                pt[nm] = pt.get(nm, EMPTY) | spread
         for k in call.keywords:
             if k.arg:
                 pt[k.arg] = self.expr(fn, k.value, env, self_cls, depth)
+            else:
+                o = self.expr(fn, k.value, env, self_cls, depth)
+                if o:
+                    for nm in params:
+                        if nm not in pt:
+                            pt[nm] = o
         return pt
+
+    def _star_elements(self, fn: FuncInfo, e: ast.expr) -> Optional[List[List[ast.expr]]]:
+        from .common import defs_of
+        try:
+            ds = defs_of(fn, e, 4)
+        except Exception:
+            return None
+        out: List[List[ast.expr]] = []
+        for d in ds:
+            if isinstance(d, ast.Constant) and d.value is None:
+                continue  # (`t = None` before the branches that build it: *None is never evaluated)
+            if isinstance(d, (ast.Tuple, ast.List)) and not any(isinstance(x, ast.Starred) for x in d.elts):
+                out.append(list(d.elts))
+            elif isinstance(d, ast.Call) and not d.keywords and not any(isinstance(x, ast.Starred) for x in d.args):
+                try:
+                    r = self.p.resolve_call(fn, d)
+                except Exception:
+                    r = None
+                if isinstance(r, ClassInfo) and any(ast.unparse(b).split(".")[-1] == "NamedTuple" for b in r.base_exprs) and len(d.args) == len(r.ann):
+                    out.append(list(d.args))
+                else:
+                    return None
+            else:
+                return None
+        if not out or len({len(x) for x in out}) != 1:
+            return None
+        return out
 
     # ------------------------------------------------------------ expressions
     def expr(self, fn: FuncInfo, e: Optional[ast.AST], env: Dict[str, Origins], self_cls: Optional[ClassInfo] = None, depth: int = 0) -> Origins:
@@ -381,6 +486,14 @@ class TaintAnalysis:
                 return frozenset(args_t)
             pt = self._bind(fn, call, r, env, self_cls, depth)
             tot, _ = self.returns(r, self._callee_cls(r, self_cls), pt, depth + 1)
+            # object taint: a value object built from client data (`_C(client data)`, field-insensitively tainted) gives client
+            # data back from its methods; the per-class field summaries do not see the constructor's arguments
+            if isinstance(call.func, ast.Attribute) and r.cls is not None and not self.spec.clean_method(call.func.attr):
+                rv = call.func.value
+                is_self = isinstance(rv, ast.Name) and rv.id in ("self", "cls")
+                is_super = isinstance(rv, ast.Call) and isinstance(rv.func, ast.Name) and rv.func.id == "super"
+                if not is_self and not is_super:
+                    tot = tot | rec(rv)
             return tot
         if isinstance(r, ClassInfo):
             return frozenset(args_t)
